@@ -516,6 +516,17 @@ partial def exec (x : XState) (args : List String) : XState × String :=
   | ["rm", k] => match dec k with | some (some k) => stepOp x (.remove k) | _ => (x, "bad")
   | ["setiv", n] => ({ x with vs := { x.vs with ivOpt := n.toNat!, ivSet := true },
                               ix := { x.ix with vs := { x.ix.vs with ivOpt := n.toNat!, ivSet := true } } }, "ok")   -- SetInitialVersion
+  | ["getrace", k, v] =>
+    -- conc mode: a reader of the latest version looks `k` up while the writer removes / rewrites it and commits;
+    -- the reader sees its version's value, the writer's commit is an ordinary one
+    match dec k with
+    | some (some kb) =>
+      let old : Option Bytes := (findVer x.vs.versions x.vs.base).bind (fun c => c.bind (fun t => (t.get kb).2))
+      let x1 := if v == "-" then (stepOp x (.remove kb)).1
+                else match dec v with | some (some vb) => (stepOp x (.set kb vb)).1 | _ => x
+      let (x2, r) := exec x1 ["save"]
+      (x2, r ++ " reader=" ++ enc old)
+    | _ => (x, "bad")
   | ["iterrace"] => exec x ["save"]   -- conc mode: a commit raced by a parked reader; for the model it is a commit
   | ["save"] =>
     let same := sameRoot x.vs
